@@ -49,11 +49,9 @@ Accepted(c, r) ==
     /\ r.da % Gran(c, r.dst) = 0
     /\ r.sa + r.size <= N
     /\ r.da + r.size <= N
-(* the buffer can hold the source granules that cover one destination granule: the larger
-   granule when one granularity divides the other, both together otherwise            *)
-ConfigOK(c) == IF c.ig % c.og = 0 \/ c.og % c.ig = 0
-               THEN c.buf >= c.ig /\ c.buf >= c.og
-               ELSE c.buf >= c.ig + c.og
+(* Every buffer size is an accepted configuration: the builder validates nothing, so the
+   statement's "one acknowledgment per request" is demanded for all of them (buffers
+   smaller than a granule and non-multiples of either granularity included).           *)
 
 (* Keeps the two recorded defect classes apart (see checks/c23.py): a request whose
    ranges overlap on one side with the destination ahead of the source is only
@@ -71,7 +69,6 @@ Move(m, r) == [m EXCEPT ![r.dst] = Override(m[r.dst], Shifted(m, r))]
 
 Init == /\ cfg \in [ig : Grans, og : Grans, buf : Bufs, multi : {FALSE}]
                    \cup [ig : Grans2, og : Grans2, buf : Bufs2, multi : {TRUE}]
-        /\ ConfigOK(cfg)
         /\ (cfg.multi => MaxReqs > 1)
         /\ mem = Fresh
         /\ pending = <<>> /\ subm = <<>> /\ done = <<>>
